@@ -218,6 +218,7 @@ def execute(case, stats):
                 return None
             return False
         m[key] = (obj, val)
+        allowed[id(obj)] = {key}
         # renamed to its key
         if obj.name != key:
             V(step, op, "rename", {"name": obj.name, "key": key})
@@ -225,6 +226,7 @@ def execute(case, stats):
         # (how the components of a Vector are named is not part of the statement)
         return True
 
+    allowed = {}  # id(stored object) -> names it may carry: the key of its most recent successful insertion
     for step, op in enumerate(case["ops"]):
         if viol:
             break
@@ -324,6 +326,7 @@ def execute(case, stats):
                         if raised:
                             break
                     m[kk] = (o, vals[kk])
+                    allowed[id(o)] = {kk}
                     n_change += 1
             elif k == "clear":
                 W.groups[op["g"]].clear()
@@ -344,6 +347,9 @@ def execute(case, stats):
                             W.mds[d][name] = ("detached", old)
                 W.groups[t] = new
                 W.mgroups[t] = dict(W.mgroups[g])
+                for kk_, (o_, v_) in W.mgroups[g].items():
+                    # a copy may or may not re-insert the members: the name is the last insertion key, or any key of the copy
+                    allowed.setdefault(id(o_), set()).add(kk_)
                 n_change += 1
             elif k == "eq":
                 g = op["g"]
@@ -536,6 +542,12 @@ def execute(case, stats):
         if viol:
             break
         # ---- invariants after every step: the containers equal the model, as dicts
+        # every stored item carries (one of) the key(s) it is stored under -- also after an insertion elsewhere was rejected
+        for g in range(NG):
+            for kk, (o, v) in W.mgroups[g].items():
+                ok_names = allowed.get(id(o))
+                if not viol and ok_names is not None and o.name not in ok_names:
+                    V(step, op, "rename", {"group": g, "key": kk, "name": o.name, "last_inserted_under": sorted(ok_names)})
         for g in range(NG):
             G, m = W.groups[g], W.mgroups[g]
             keys = list(G.keys())
